@@ -20,7 +20,7 @@ VERIF = os.path.dirname(HERE)
 sys.path.insert(0, HERE)
 import vgen
 import vrun
-from config import PROPS, KANI, REPO, COMMON_ASSUMPTIONS
+from config import PROPS, KANI, REPO, COMMON_ASSUMPTIONS, REGRESSION_REPLAYS
 
 BUILD = os.path.join(VERIF, 'build')
 BASELINE = os.path.join(VERIF, 'baseline')
@@ -534,6 +534,21 @@ def check_property(prop, tier, seed):
             else:
                 undecided.append('kani: harness %s: status %s: %s' % (h, hr['status'], hr['raw_tail'][-300:]))
 
+    # ---- regression replays of the repaired genuine defects (concrete witnesses, run natively on the real code) ----
+    regr_ev = []
+    for (case, args, what) in REGRESSION_REPLAYS.get(prop, []):
+        rc_r, out_r = native_replay(case, args, timeout=120)
+        regr_ev.append({'case': case, 'args': args, 'what': what, 'holds': rc_r == 0})
+        if rc_r == 1 or rc_r == 124:
+            payload = {'property': prop, 'unit': 'regression-replay', 'function': case,
+                       'failed_obligation': {'labels': [], 'message': 'a repaired genuine defect has returned: ' + what},
+                       'verifier': 'native replay of the recorded witness (known_findings.json, fixed entry)', 'verifier_output': out_r,
+                       'failing_input': '%s %s' % (case, ' '.join(args)),
+                       'native_replay': {'case': case, 'args': args, 'output': out_r, 'confirmed_on_real_code': True}}
+            violations.append(('regression_%s_%s' % (case, '_'.join(args)[:40]), payload, True))
+        elif rc_r != 0:
+            undecided.append('regression replay %s could not run: %s' % (case, out_r[-300:]))
+
     # ---- thorough extras ----
     thorough = {}
     if tier == 'thorough' and not undecided:
@@ -563,6 +578,7 @@ def check_property(prop, tier, seed):
             'not_decided': cfg.get('not_decided', []),
             'termination_not_claimed_for': [f['key'] for f in functions_ev if f.get('no_termination_claim')],
             'known_findings_reported': known_hits,
+            'regression_replays_of_fixed_findings': regr_ev,
             'undecided': undecided,
             'thorough': thorough,
             'back_ends': {'verus': (unit_results[0].verus or {}).get('verus_version') if unit_results else None, 'smt': 'z3 (bundled with verus)',
